@@ -7,7 +7,7 @@
  *   usage: d_poll <seed> <tso> <trace> <program-file>
  * program file:  "init <signed id>"   initial value of current_state / latest_target (ids near the wrap boundary)
  *                "thread <name>" followed by "start <k>" (handle slot k), "poll <k>", "pollw <k>" (poll until TRUE),
- *                "rl" (rcu_read_lock), "ru" (rcu_read_unlock)
+ *                "rl" (rcu_read_lock), "ru" (rcu_read_unlock), "crcu" (an unrelated call_rcu, invisible to the specification)
  *
  * Events kept for the trace specification (everything else -- grace-period and call_rcu internals -- is filtered by
  * tools/props/c14.py):  lock/unlock of "poll.lock", proj (current_state, latest_target, active; read from the statics
@@ -56,6 +56,7 @@ static struct prog P[MAXTHR]; static int np;
 static struct urcu_gp_poll_state H[MAXH];
 static unsigned hopen[MAXH];		/* reader sections (bit set) open at the start_poll call of each handle */
 static int was_true[MAXH];
+static int hret[MAXH];			/* start_poll of the slot has returned (H[k] is valid) */
 static unsigned open_mask; static int nsections;
 static unsigned long lastcur[32];	/* current_state seen at this thread's last unlock of poll.lock */
 static int gp_waiting;			/* the helper is blocked in (or about to enter) FUTEX_WAIT on rcu_gp.futex */
@@ -67,6 +68,8 @@ static struct call_rcu_data *the_crdp;
 struct sent { char t[16]; char k[8]; int done; };
 static struct sent *S; static int ns, sp; static int script_abandoned; static int rend_waiters;
 static int h1_at_gate;
+static int unlocking;			/* a reader has logged its rend but not finished rcu_read_unlock() (its wake-up of the helper is still to come) */
+static int crcu_inflight;		/* a reader is between its rbegin and the completion of the crcu that follows it (scripted runs: other sections begin only after the helper is blocked behind that reader) */
 static int jump_pending;		/* a reader was let through to release the grace period; wait for the helper to resume */
 struct gate { const char *t; const char *k; };
 
@@ -79,7 +82,11 @@ static DP_NS int gate_ok(void *a)
 	/* a reader section begins (rcu_read_lock is called after this gate) only while the helper is at rest -- at its own
 	 * gate, idle, or blocked on another reader -- so that whether the grace period in flight covers the section is decided
 	 * by the script and not by a race with the helper's registry scan */
-	if (!strcmp(g->k, "rbegin") && head_is(g->t, "rbegin")) return h1_at_gate || cr_waiting || gp_waiting;
+	if (!strcmp(g->k, "rbegin") && head_is(g->t, "rbegin")) return crcu_inflight ? gp_waiting : (h1_at_gate || cr_waiting || gp_waiting);
+	/* likewise a reader section ends (when the script says so) only once the helper has made all the progress it can: a callback that
+	 * is runnable too early then reaches its entry oracle before the section is over, instead of racing with the reader's exit */
+	if (!strcmp(g->k, "rend") && head_is(g->t, "rend"))
+		return !unlocking && (h1_at_gate || (cr_waiting && the_crdp->futex == -1) || (gp_waiting && rcu_gp.futex == -1));
 	if (head_is(g->t, NULL)) return 1;			/* my turn (a different event of mine: divergence, see gate()) */
 	/* the script waits for the callback while the real grace period waits for a reader: let a reader standing at its
 	 * rend gate go first; if there is none the script cannot be followed */
@@ -115,9 +122,21 @@ static DP_NS int gate(const char *k)
 static DP_NS void pop(int matched) { if (matched && sp < ns) { sp++; script_skip(); } }
 
 /* ------------------------------------------------------------------ interposition on the library's libc calls */
+/* The helper thread locks poll.lock only in urcu_poll_worker_cb(), whose first action under the lock is current_state++.  Evaluated when
+ * the callback ARRIVES at the lock (before any script gate can delay it): if that increment completes a handle whose start_poll has
+ * returned while a reader section that was open when that start_poll was called is still open, the grace period behind this callback
+ * invocation was too short -- the property itself, stated at the increment instead of at the next poll. */
+static DP_NS void worker_entry_oracle(void)
+{
+	unsigned long cur = poll_worker_gp_state.current_state.grace_period_id, nxt = cur + 1;
+	for (int k = 0; k < MAXH; k++)
+		if (hret[k] && (long)(H[k].grace_period_id - cur) >= 0 && (long)(H[k].grace_period_id - nxt) < 0 && (hopen[k] & open_mask))
+			vrt_fail("ORACLE worker callback is about to complete handle %d while a reader section open at its start_poll is still open (mask %x): callback invoked before a full grace period", k, hopen[k] & open_mask);
+}
 static DP_NS int dp_mutex_lock(pthread_mutex_t *m)
 {
 	if (m == &poll_worker_gp_state.lock && vrt_in_model()) {
+		if (!strcmp(vrt_self_name(), "h1")) worker_entry_oracle();
 		int g = gate("lock"); int r = vrt_mutex_lock(m); pl_held = 1; pop(g); return r;
 	}
 	return vrt_mutex_lock(m);
@@ -180,6 +199,11 @@ static DP_NS bool do_poll(int k)
 	return r;
 }
 
+static struct rcu_head dummy_head[MAXOPS]; static int ndummy, ndummy_run;
+/* crcu's wait is only a direction: it gives way as soon as the script needs this thread's next event, or the helper stands at a script gate */
+static DP_NS int helper_gp_blocked(void *a) { return gp_waiting || h1_at_gate || head_is((const char *) a, NULL); }
+static DP_NS void dummy_cb(struct rcu_head *h) { (void) h; ndummy_run++; }
+
 static DP_NS void *runner(void *arg)
 {
 	struct prog *p = arg; int cs = -1, g;
@@ -190,7 +214,7 @@ static DP_NS void *runner(void *arg)
 			g = gate("call"); hopen[k] = open_mask;
 			vrt_log("\"op\":\"call\",\"api\":\"start\",\"h\":%d", k); pop(g);
 			vrt_op_begin("start_poll_synchronize_rcu", VP_BLOCKING);
-			H[k] = start_poll_synchronize_rcu();
+			H[k] = start_poll_synchronize_rcu(); hret[k] = 1;
 			vrt_op_end();
 			g = gate("ret"); vrt_log("\"op\":\"ret\",\"api\":\"start\",\"r\":%ld", (long) H[k].grace_period_id); pop(g);
 		} else if (!strcmp(o->kind, "poll")) {
@@ -214,15 +238,25 @@ static DP_NS void *runner(void *arg)
 				}
 			}
 			g = gate("ret"); vrt_log("\"op\":\"ret\",\"api\":\"pollw\",\"r\":\"TRUE\""); pop(g);
+		} else if (!strcmp(o->kind, "crcu")) {
+			/* an unrelated call_rcu (invisible to the specification: no call/ret event, no gate): puts the helper into a
+			 * grace period of its own, so that a later start_poll enqueues the worker while the helper is mid grace period */
+			if (ndummy == MAXOPS) vrt_fail("SCENARIO too many crcu");
+			if (cs < 0) vrt_fail("SCENARIO crcu outside the thread's own read-side section");
+			vrt_op_begin("call_rcu", VP_BLOCKING); call_rcu(&dummy_head[ndummy++], dummy_cb); vrt_op_end();
+			/* environment direction (restricts schedules, never invents one): continue only once the helper is blocked in the
+			 * grace period this section holds open, i.e. after its parity flip */
+			vrt_wait_until(helper_gp_blocked, (void *) vrt_self_name()); crcu_inflight--;
 		} else if (!strcmp(o->kind, "rl")) {
 			if (cs >= 0) vrt_fail("SCENARIO nested reader sections are not used");
 			g = gate("rbegin");
 			vrt_op_begin("rcu_read_lock", VP_WAITFREE); rcu_read_lock(); vrt_op_end();
+			if (i + 1 < p->nops && !strcmp(p->ops[i + 1].kind, "crcu")) crcu_inflight++;
 			cs = nsections++; open_mask |= 1u << cs; vrt_log("\"op\":\"rbegin\",\"cs\":%d", cs); pop(g);
 		} else if (!strcmp(o->kind, "ru")) {
 			if (cs < 0) vrt_fail("SCENARIO ru without rl");
-			g = gate("rend"); vrt_log("\"op\":\"rend\",\"cs\":%d", cs); open_mask &= ~(1u << cs); cs = -1; pop(g);
-			vrt_op_begin("rcu_read_unlock", VP_WAITFREE); rcu_read_unlock(); vrt_op_end();
+			g = gate("rend"); vrt_log("\"op\":\"rend\",\"cs\":%d", cs); open_mask &= ~(1u << cs); cs = -1; unlocking++; pop(g);
+			vrt_op_begin("rcu_read_unlock", VP_WAITFREE); rcu_read_unlock(); vrt_op_end(); unlocking--;
 		}
 	}
 	if (cs >= 0) vrt_fail("SCENARIO thread ends inside a read-side critical section");
@@ -244,6 +278,7 @@ int main(int argc, char **argv)
 		if (sscanf(line, "start %d", &x) == 1 || sscanf(line, "pollw %d", &x) == 1 || sscanf(line, "poll %d", &x) == 1) {
 			if (x < 0 || x >= MAXH) return 2;
 			sscanf(line, "%7s", op->kind); op->h = x; cur->nops++;
+		} else if (!strncmp(line, "crcu", 4)) { snprintf(op->kind, sizeof op->kind, "crcu"); cur->nops++;
 		} else if (!strncmp(line, "rl", 2) || !strncmp(line, "ru", 2)) { snprintf(op->kind, sizeof op->kind, "%.2s", line); cur->nops++; }
 	}
 	fclose(f);
